@@ -17,7 +17,10 @@ type node struct {
 	// target field Calc<ID>. Ctor (C07): the struct's method uses goverter:default with a
 	// fallible constructor taking the source. Both need an ID field for fault keys.
 	MethodSrc bool
-	Ctor      bool
+	// MethodSrcFunc: the source method additionally feeds a fallible map|FUNC function
+	// (`goverter:map Calc<ID> Calc<ID> | MapCalc<ID>`): two fallible calls for one field.
+	MethodSrcFunc bool
+	Ctor          bool
 	Kind   string // basic | nbasic | struct | ptr | slice | map | ustruct | ref | leaf
 	Basic  string
 	ID     int // named things: struct / nbasic / leaf id; ref: id of the struct referred to
@@ -309,6 +312,7 @@ func (s *Spec) genStruct(depth int) *node {
 	}
 	if s.Prop == "C07" {
 		n.MethodSrc = s.rng.IntN(5) == 0
+		n.MethodSrcFunc = n.MethodSrc && s.rng.IntN(2) == 0
 		n.Ctor = s.rng.IntN(6) == 0
 	}
 	return n
@@ -609,6 +613,11 @@ func (s *Spec) TypesSource() string {
 			fn := fmt.Sprintf("S%d.Calc%d", id, id)
 			fmt.Fprintf(&b, "func (s S%d) Calc%d() (int, error) {\n\tif verifsim.Poisoned(%q, s.ID) {\n\t\treturn 0, verifsim.Inject(%q, s.ID)\n\t}\n\treturn s.ID*7 + 1, nil\n}\n", id, id, fn, fn)
 			fmt.Fprintf(&b, "func (s S%d) TwinCalc%d() int { return s.ID*7 + 1 }\n", id, id)
+			if n.MethodSrcFunc {
+				mf := fmt.Sprintf("MapCalc%d", id)
+				fmt.Fprintf(&b, "func %s(v int) (int, error) {\n\tif verifsim.Poisoned(%q, v) {\n\t\treturn 0, verifsim.Inject(%q, v)\n\t}\n\treturn v + 1000, nil\n}\n", mf, mf, mf)
+				fmt.Fprintf(&b, "func Twin%s(v int) int { return v + 1000 }\n", mf)
+			}
 		}
 		if n.Ctor {
 			fn := fmt.Sprintf("NewT%d", id)
@@ -695,10 +704,14 @@ func (s *Spec) methods(twin bool) []methodSpec {
 			}
 			doc = append(doc, "goverter:default "+fn)
 		}
-		if n.MethodSrc && twin {
+		switch {
+		case n.MethodSrc && n.MethodSrcFunc && twin:
+			doc = append(doc, fmt.Sprintf("goverter:map TwinCalc%d Calc%d | TwinMapCalc%d", id, id, id))
+		case n.MethodSrc && n.MethodSrcFunc:
+			doc = append(doc, fmt.Sprintf("goverter:map Calc%d Calc%d | MapCalc%d", id, id, id))
+		case n.MethodSrc && twin:
 			doc = append(doc, fmt.Sprintf("goverter:map TwinCalc%d Calc%d", id, id))
-		}
-		if n.MethodSrc && !twin && !s.AutoMethodSrc {
+		case n.MethodSrc && !s.AutoMethodSrc:
 			doc = append(doc, fmt.Sprintf("goverter:map Calc%d Calc%d", id, id))
 		}
 		isRoot := false
